@@ -379,7 +379,22 @@ func genC10(t *rapid.T) *c10Case {
 			c.Choices = append(c.Choices, l.Log)
 		}
 	}
-	switch n(11, "target") {
+	switch n(12, "target") {
+	case 11:
+		// defaults-centric: schemas with `default` at any depth of properties meeting instances of any
+		// shape in any representation (typed maps, named string key types): ApplyDefaults assigns
+		// decoded defaults into whatever container the caller handed in
+		c.Target = "unmarshal"
+		doc := genC15Schema(t, 1+n(3, "ddepth"))
+		c.Bytes = doc.JSON()
+		c.Defaults = n(2, "vd") == 0
+		for i, k := 0, 1+n(3, "ninst"); i < k; i++ {
+			v := genC15Instance(t, doc, 3)
+			l := &repr.Logger{In: repr.RapidChooser{T: t}}
+			(&repr.Builder{C: l}).Build(v)
+			c.Instances = append(c.Instances, v)
+			c.Choices = append(c.Choices, l.Log)
+		}
 	case 10:
 		// equality-centric: uniqueItems / const / enum meeting containers in every representation
 		// (arrays of arrays, equal-but-not-identical duplicates), since those keywords walk the
